@@ -268,4 +268,36 @@ Section EcbCs3Enc.
       rewrite <- Hcl, skipn_app_exact by reflexivity. cbn [app].
       rewrite concat_app. cbn [concat]. rewrite app_nil_r, <- app_assoc. reflexivity.
   Qed.
+
+  (* ---- C05 over the translated source: the bytes this closure body leaves in the buffer are the NIST SP 800-38A
+     Addendum ciphertext of the message, buffer-to-buffer (any prior contents of the output buffer) and in place --
+     the tie theorem above composed with Cts_cs_proofs.ecb_cs3_enc_ok (= Props/C05). *)
+  Theorem C05_ecb_cs3_enc_source_b2b (blocks : list (list N)) (tail : list N) (ob : list (list N)) (ot : list N) :
+    cipher_wf C -> all_len bs blocks -> 1 <= length blocks -> length tail < bs ->
+    all_len bs ob -> length ob = length blocks -> length ot = length tail ->
+    exists e', run_body X (eenv true false (concat blocks ++ tail) (concat ob ++ ot)) cts__ecb_cs3__BlockCipherEncClosure__Closure__call = Some (e', VUnit)
+      /\ lookup "buf" e' = Some (VBuf false (concat blocks ++ tail) (ecb_cs3_spec bs (c_E C) blocks tail)).
+  Proof.
+    intros Cwf Hb Hn Ht Hob Hobl Hotl.
+    destruct (tie_cts__ecb_cs3__BlockCipherEncClosure__Closure__call false blocks tail ob ot) as (e' & o' & Hrun & Hbuf & Hmod); auto; try lia.
+    assert (Hm : msg_mem C (mkmem false (concat blocks ++ tail) (concat ob ++ ot)) blocks tail).
+    { constructor; auto. split; [|discriminate]. cbn [m_in m_out]. rewrite !app_length, !(all_len_concat_length bs) by auto. lia. }
+    destruct (ecb_cs3_enc_ok C Cwf _ blocks tail Hm) as (m' & E1 & E2).
+    fold bs in E2. rewrite Hmod in E1. injection E1 as <-. cbn [m_out] in E2. subst o'.
+    exists e'. split; [exact Hrun | exact Hbuf].
+  Qed.
+
+  Theorem C05_ecb_cs3_enc_source_inplace (blocks : list (list N)) (tail : list N) :
+    cipher_wf C -> all_len bs blocks -> 1 <= length blocks -> length tail < bs ->
+    exists e', run_body X (eenv true true (concat blocks ++ tail) (concat blocks ++ tail)) cts__ecb_cs3__BlockCipherEncClosure__Closure__call = Some (e', VUnit)
+      /\ lookup "buf" e' = Some (VBuf true (concat blocks ++ tail) (ecb_cs3_spec bs (c_E C) blocks tail)).
+  Proof.
+    intros Cwf Hb Hn Ht.
+    destruct (tie_cts__ecb_cs3__BlockCipherEncClosure__Closure__call true blocks tail blocks tail) as (e' & o' & Hrun & Hbuf & Hmod); auto; try lia.
+    assert (Hm : msg_mem C (mkmem true (concat blocks ++ tail) (concat blocks ++ tail)) blocks tail).
+    { constructor; auto. split; auto. }
+    destruct (ecb_cs3_enc_ok C Cwf _ blocks tail Hm) as (m' & E1 & E2).
+    fold bs in E2. rewrite Hmod in E1. injection E1 as <-. cbn [m_out] in E2. subst o'.
+    exists e'. split; [exact Hrun | exact Hbuf].
+  Qed.
 End EcbCs3Enc.
